@@ -48,6 +48,16 @@ def handle : List String → Option String
       | .loaded _ => "loaded-same"
       | _ => "err"
     pure (expect out real)
+  -- the writer is interrupted by an exception before call `n` (cleanup handlers run): same verdict
+  | ["c19.unwind", fast, nsigs, n, real] => do
+    let fast ← parseBool fast
+    let nsigs ← nsigs.toNat?
+    let n ← n.toNat?
+    let full : SigStore := { marker := some 1, k := 1, pre := [], metaAttrs := [], ids := [], values := [], bounds := [0], dtypeBytes := 1 }
+    let out := match loadFile (unwindImage (writerTrace fast nsigs) full n) with
+      | .loaded _ => "loaded-same"
+      | _ => "err"
+    pure (expect out real)
   | ["c19.trace", fast, nsigs, real] => do
     let fast ← parseBool fast
     let nsigs ← nsigs.toNat?
